@@ -116,6 +116,26 @@ pub fn lookup_event(p: LonLat, res: i32, kind: &str) -> Value {
            "abslat": p.latitude().abs().floor() as i64})
 }
 
+/// one lookup with the step log of the search loop (verif hook): which estimate every sample gave, whether it was
+/// skipped as seen before, whether it contained the query point.  Containment values travel as pos / rank (position in
+/// the stable descending order), see spec/A5LookupSteps.tla
+pub fn lookupsteps_event(p: LonLat, res: i32) -> Option<Value> {
+    let r = catch(|| a5::lonlat_to_cell(p, res));
+    let info = a5::verif::lookup_info();
+    let steps = a5::verif::lookup_steps();
+    let (ok, id) = match r { Ok(Ok(id)) => (true, id), _ => (false, 0) };
+    if steps.iter().any(|s| s.containment.map(|d| d.is_nan()).unwrap_or(false)) { return None; }
+    let mut cells: Vec<u64> = vec![];
+    for s in &steps { if !cells.contains(&s.estimate) { cells.push(s.estimate); } }
+    let tested: Vec<(usize, f64)> = steps.iter().enumerate().filter_map(|(i, s)| s.containment.filter(|d| !(*d > 0.0)).map(|d| (i, d))).collect();
+    let rank_of = |i: usize| -> usize { match tested.iter().position(|t| t.0 == i) { None => 0,
+        Some(pos) => { let d = tested[pos].1; tested.iter().filter(|t| t.1 > d).count() + tested[..pos].iter().filter(|t| t.1 == d).count() } } };
+    let js: Vec<Value> = steps.iter().enumerate().map(|(i, s)| json!({"c": cells.iter().position(|&c| c == s.estimate).unwrap() + 1, "dup": s.seen_before,
+        "tested": s.containment.is_some(), "pos": s.containment.map(|d| d > 0.0).unwrap_or(false), "rank": rank_of(i)})).collect();
+    Some(json!({"op": "lookupsteps", "p": fmt_ll(p), "res": res, "ok": ok, "answer_id": quads(id), "cells": quads_list(&cells), "steps": js,
+                "branch": info.branch, "sample": info.sample, "estimates": info.estimates}))
+}
+
 pub fn centre_event(id: u64) -> Value {
     let res = res_of(id);
     let c = catch(|| a5::cell_to_lonlat(id)).ok().and_then(|x| x.ok());
@@ -713,6 +733,7 @@ pub fn gen_c01(tier: &str, seed: u64, out: &str, mc: Option<&str>) -> Value {
     let specials = special_points();
     let per = if tier == "thorough" { 40 } else { 3 };
     let mut n = 0u64;
+    let mut n_steps = 0u64;
     let mut branches = [0u64; 5];
     for sc in plan.iter().filter(|s| s["kind"] == "lookupscenario") {
         let (rlo, rhi) = (sc["rlo"].as_i64().unwrap() as i32, sc["rhi"].as_i64().unwrap() as i32);
@@ -724,6 +745,7 @@ pub fn gen_c01(tier: &str, seed: u64, out: &str, mc: Option<&str>) -> Value {
                 branches[(e["branch"].as_u64().unwrap_or(0) as usize).min(4)] += 1;
                 t.emit(e);
                 n += 1;
+                if n % 4 == 0 { if let Some(e2) = lookupsteps_event(p, r) { t.emit(e2); n_steps += 1; } }
             }
         }
         t.cut();
@@ -803,10 +825,11 @@ pub fn gen_c01(tier: &str, seed: u64, out: &str, mc: Option<&str>) -> Value {
         branches[(e["branch"].as_u64().unwrap_or(0) as usize).min(4)] += 1;
         t.emit(e);
         n += 1;
+        if let Some(e2) = lookupsteps_event(LonLat::new(*lon, *lat), *res) { t.emit(e2); n_steps += 1; }
         t.cut();
     }
     t.finish();
-    json!({"files": t.files, "events": t.events, "lookups": n, "edge_hugging_points": n_hug, "branches_exact_direct_probe_fallback": branches[1..].to_vec(),
+    json!({"files": t.files, "events": t.events, "lookups": n, "lookups_with_step_log": n_steps, "edge_hugging_points": n_hug, "branches_exact_direct_probe_fallback": branches[1..].to_vec(),
            "mass_lookups": n_mass, "mass_hard_cases_found": n_hard_total, "mass_hard_cases_validated": hard_all.len(),
            "mass_winning_probe_histogram_0_26_fallback": hist_all,
            "samples": [lookup_event(LonLat::new(-73.98, 40.75), 11, "sample")]})
